@@ -356,6 +356,51 @@ for _op, _tr in (('add', 'Add'), ('sub', 'Sub'), ('mul', 'Mul'), ('div', 'Div'),
            'integer %s: panics on overflow when the crate is built with overflow checks (dev), wraps otherwise (release); / and %% panic on zero' % _op)(arith_native(_op))
 
 
+_INTS_RE = r'(i8|i16|i32|i64|isize|u8|u16|u32|u64|usize)'
+
+
+@native(r'^core::num::<impl %s>::wrapping_(add|sub|mul)$' % _INTS_RE, 'iN/uN::wrapping_{add,sub,mul}: two\'s complement result in every profile')
+def int_wrapping(vm, m, callee, args):
+    a, b = dv(vm, args[0]), dv(vm, args[1])
+    op = callee.rsplit('_', 1)[1]
+    return BV({'add': a.v + b.v, 'sub': a.v - b.v, 'mul': a.v * b.v}[op], a.signed)
+
+
+def _wide(a, b, op):
+    from z3 import SignExt, ZeroExt
+    w = a.v.size()
+    ext = (lambda x: SignExt(w, x)) if a.signed else (lambda x: ZeroExt(w, x))
+    x, y = ext(a.v), ext(b.v)
+    return {'add': x + y, 'sub': x - y, 'mul': x * y}[op], w
+
+
+def _range(w, signed):
+    if signed:
+        return BitVecVal(-(1 << (w - 1)), 2 * w), BitVecVal((1 << (w - 1)) - 1, 2 * w)
+    return BitVecVal(0, 2 * w), BitVecVal((1 << w) - 1, 2 * w)
+
+
+@native(r'^core::num::<impl %s>::saturating_(add|sub|mul)$' % _INTS_RE, 'iN/uN::saturating_{add,sub,mul}: the exact result clamped to the type\'s range')
+def int_saturating(vm, m, callee, args):
+    from z3 import Extract
+    a, b = dv(vm, args[0]), dv(vm, args[1])
+    r, w = _wide(a, b, callee.rsplit('_', 1)[1])
+    mn, mx = _range(w, a.signed)
+    # the doubled width holds the exact result; compare signed there (for unsigned operands the exact sub may be negative)
+    return BV(Extract(w - 1, 0, If(r > mx, mx, If(r < mn, mn, r))), a.signed)
+
+
+@native(r'^core::num::<impl %s>::checked_(add|sub|mul)$' % _INTS_RE, 'iN/uN::checked_{add,sub,mul}: None exactly when the exact result is out of range')
+def int_checked(vm, m, callee, args):
+    from z3 import Extract
+    a, b = dv(vm, args[0]), dv(vm, args[1])
+    r, w = _wide(a, b, callee.rsplit('_', 1)[1])
+    mn, mx = _range(w, a.signed)
+    out = Or(r > mx, r < mn)
+    val = BV(Extract(w - 1, 0, r), a.signed)
+    raise NativeFork([(out, lambda m2, a2: NONE()), (Not(out), lambda m2, a2: some(val))])
+
+
 @native(r'^<&?(i8|i16|i32|i64|isize) as (std::ops::)?Neg>::neg$', 'integer negation (overflow as for add)')
 def int_neg(vm, m, callee, args):
     a = dv(vm, args[0])
